@@ -72,7 +72,15 @@ func (l *DeadlineLimiter) tryAcquire(ctx context.Context) (listener core.Listene
 		// - A timeout
 		// - The context is cancelled
 		l.logger.Debugf("Blocking waiting for release or timeout ctx=%v", ctx)
-		if shouldAcquire := blockUntilSignaled(ctx, l.c, timeout); shouldAcquire {
+		// retry under the condition's lock so that a release cannot slip in before we are waiting
+		l.c.L.Lock()
+		listener, ok = l.delegate.Acquire(ctx)
+		if ok && listener != nil {
+			l.c.L.Unlock()
+			l.logger.Debugf("delegate returned a listener ctx=%v", ctx)
+			return listener, true
+		}
+		if shouldAcquire := blockUntilSignaledLocked(ctx, l.c, timeout); shouldAcquire {
 			listener, ok := l.delegate.Acquire(ctx)
 			if ok && listener != nil {
 				l.logger.Debugf("delegate returned a listener ctx=%v", ctx)
